@@ -32,3 +32,4 @@ def run(repo, res, tier):
     # stream itself)
     from .. import apirules as _ap20
     _ap20.rule_f1(repo, res, "__init__")
+    _ap5.rule_f2c(repo, res)
